@@ -9,7 +9,7 @@ the file keeps it as a `def … : Prop`, proves its negation from a concrete run
 the `_partial` theorem under a decidable hypothesis on the steps that excludes exactly the defect
 class (`LogOK`, `DataOK`).
 -/
-import OG.C05.Boot
+import OG.C05.Catchup
 
 namespace OG.C05
 open OG.Gen.C05
@@ -187,6 +187,78 @@ theorem catch_up_from_log (n : Nat) (szs : List Nat) (os : List Op) (s : State) 
     x.last + 1 ≥ lx.first :=
   (truncate_safe_partial n szs os s hn hok h).1 l m lx x hl hx
 
+/-! ### ts-meta and the coordinator -/
+
+theorem find_range_eq (n m : Nat) (hm : m < n) : (List.range n).find? (fun i => i == m) = some m := by
+  induction n with
+  | zero => omega
+  | succ n ih =>
+    rw [List.range_succ, List.find?_append]
+    by_cases h : m < n
+    · rw [ih h]; rfl
+    · have : m = n := by omega
+      subst this
+      have hnone : (List.range m).find? (fun i => i == m) = none := by
+        apply List.find?_eq_none.mpr
+        intro i hi
+        have := List.mem_range.mp hi
+        simp; omega
+      rw [hnone]
+      simp
+
+/-- While the group is Health (a majority of its partitions online) requests are routed to the master. -/
+theorem route_when_healthy (s : State) (hh : s.health = true) (hm : s.master < s.alive.length) :
+    route s = some s.master := by
+  unfold route
+  simp only [hh, if_true]
+  exact find_range_eq _ _ hm
+
+/-- electRgMaster: the new master is a peer that ts-meta sees online, the old master (not online)
+becomes a peer. -/
+theorem elect_picks_online_peer (s s' : State) (h : doElect s = some s') :
+    s'.master ∈ s.peers ∧ s.alive.getD s'.master false = true ∧ s.alive.getD s.master false = false ∧
+    s.master ∈ s'.peers := by
+  unfold doElect at h
+  split at h
+  · cases h
+  · rename_i hnot
+    split at h
+    · rename_i p hp
+      cases h
+      have hmem := List.mem_of_find?_eq_some hp
+      have hal := List.find?_some hp
+      refine ⟨hmem, hal, by simpa using hnot, ?_⟩
+      simp only [List.mem_map]
+      exact ⟨p, hmem, by simp⟩
+    · cases h
+
+/-- `write_accepted_after_new_leader`: once ts-meta has made an online peer master (and the group is
+Health), the coordinator's next request is routed to the new master's store and - that store being
+up - accepted there: a waiter is registered and the proposal is in flight. (That it is then
+committed by any quorum and answered only after the store applied it: `acked_is_committed`,
+`acked_is_applied_on_leader`; the run `electRun` below goes all the way.) -/
+theorem write_accepted_after_new_leader (s s1 : State) (k v size : Nat) (x : Node)
+    (he : doElect s = some s1) (hh : s1.health = true) (hm : s1.master < s1.alive.length)
+    (hx : s1.nodes[s1.master]? = some x) (hup : x.up = true) :
+    s.alive.getD s1.master false = true ∧
+    ∃ s2 e y, step s1 (.coordWrite (.write k v 0) size) = some s2 ∧ s2.inflight = s1.inflight ++ [e] ∧
+      e.cmd = .write k v 0 ∧ e.prop = s1.master ∧ e.uid = s1.nextUid ∧
+      s2.nodes[s1.master]? = some y ∧ (e.pseq, e.uid) ∈ y.pending ∧ e.ptag = lifeTag y.life := by
+  refine ⟨(elect_picks_online_peer s s1 he).2.1, ?_⟩
+  have hlt : s1.master < s1.nodes.length := by
+    rcases List.getElem?_eq_some_iff.mp hx with ⟨hl, _⟩; exact hl
+  let e : Ent := { cmd := .write k v 0, size := size, prop := s1.master, ptag := lifeTag x.life, pseq := x.nextSeq + 1, uid := s1.nextUid }
+  let y : Node := { x with pending := x.pending ++ [(x.nextSeq + 1, s1.nextUid)], nextSeq := x.nextSeq + 1 }
+  have hstep : step s1 (.coordWrite (.write k v 0) size) =
+      some { setNode s1 s1.master y with inflight := s1.inflight ++ [e], nextUid := s1.nextUid + 1 } := by
+    simp only [step, doCoordWrite, route_when_healthy s1 hh hm, doPropose, hx]
+    rw [if_pos hup]
+  refine ⟨_, e, y, hstep, rfl, rfl, rfl, rfl, ?_, ?_, rfl⟩
+  · show (setNode s1 s1.master y).nodes[s1.master]? = some y
+    rw [getElem?_setNode]; simp [hlt]
+  · show (x.nextSeq + 1, s1.nextUid) ∈ x.pending ++ [(x.nextSeq + 1, s1.nextUid)]
+    simp
+
 /-! ### non-vacuity and the negations -/
 
 def readB (s : State) (a k : Nat) : Option (Option Nat × Option Nat × Bool) :=
@@ -211,6 +283,18 @@ example : (run (boot 3 [6, 6, 6]) goodRun).bind (fun s => readB s 0 1) = some (s
 example : (run (boot 3 [6, 6, 6]) goodRun).bind (fun s => readB s 1 1) = some (some 11, some 11, false) := by decide
 example : (run (boot 3 [6, 6, 6]) goodRun).bind (fun s => readB s 2 1) = some (some 11, some 11, true) := by decide
 example : (run (boot 3 [6, 6, 6]) goodRun).map (·.master) = some 1 := by decide
+
+/-- node 0 (master and raft leader) dies after an acknowledged write; ts-meta elects node 1, node 1
+wins the raft election, the coordinator's next write goes to node 1 and is acknowledged -/
+def electRun : List Op := [
+  .raftLead 0, .commit 0 [0, 1, 2], .coordWrite (.write 1 10 0) 60, .commit 0 [0, 1, 2],
+  .publish 0, .apply 0 false false, .apply 0 false true,
+  .kill 0, .metaDown 0, .elect, .raftLead 1, .sync 2, .commit 0 [1, 2],
+  .coordWrite (.write 1 11 0) 60, .commit 0 [1, 2], .publish 1, .apply 1 false false, .apply 1 false false, .apply 1 false false, .apply 1 false true]
+
+example : runOK AllOK (boot 3 [6, 6, 6]) electRun = true := by decide
+example : (run (boot 3 [6, 6, 6]) electRun).map (fun s => (s.master, s.acked)) = some (1, [(1, true), (2, true)]) := by decide
+example : (run (boot 3 [6, 6, 6]) electRun).bind (fun s => readB s 1 1) = some (some 11, some 11, true) := by decide
 
 /-- two shards: the flush of shard 0 moves the snapshot index over the write of shard 1 -/
 def multishardRun : List Op := [
